@@ -116,10 +116,18 @@ def unit_unwind(n):
     return _merge_canaries(settle(ctx.all_obls, mode="U"))
 
 
+def unit_anysize(model, n):
+    """_compute returns, per team, the members of that team (the same objects, in order), for teams of every size"""
+    from . import anysize
+    return anysize.c02(model, n)
+
+
 def units(tier):
     sizes = SIZES_QUICK if tier == "quick" else SIZES_THOROUGH
     us = [("unit_unwind", (n,)) for n in ((2, 3, 4, 5) if tier == "quick" else (2, 3, 4, 5, 6, 7))]
     for m in extract.MODELS:
+        for n in range(2, (4 if tier == "quick" else 7) + 1):
+            us.append(("unit_anysize", (m, n)))
         for s in sizes:
             for vec in ("none", "ranks", "scores"):
                 for limit in (False, True):
@@ -143,9 +151,10 @@ def main(tier, seed):
             "A-sort: list.sort(key=) runs natively on symbolic keys; every outcome of its comparisons is a path, so every weak order of the rank/score values is covered for the listed shapes",
             "rank/score values: symbolic value and symbolic kind (bool/int/float), NaN excluded",
             "players passed once (no aliasing between input slots)",
+            __import__("pyvc.props.anysize", fromlist=["A_SUM"]).A_SUM,
             "shape-bounded: team-size vectors listed in coverage.shapes",
         ],
         explanation=("The real rate() of each model runs on symbolic games with symbolic rank or score vectors (value and int/float/bool kind); for every feasible outcome of the sort (every weak order) the result is checked structurally on the actual heap: same shape, result[i][j] *is* the object passed at teams[i][j] "
                      "with its id and name objects untouched, no object twice, input lists untouched; plus _unwind's contract (stable sorting permutation; unwinding with the recorded tenet is the inverse). Complete per shape, bounded over shapes."),
-        shapes=[str(s) for s in sizes],
+        shapes=[str(s) for s in sizes] + ["_compute: n = 2..4 quick / 2..7 thorough teams of every size (rows-are-the-input-teams)"],
     )
